@@ -11,6 +11,8 @@ import (
 
 // C05: scalar arithmetic through the public API. Inputs are the 32 bytes given to
 // SetBits (which masks bit 255 and does not reduce); outputs are ToBytes.
+var c05batch int
+
 func init() { recorders["C05"] = recC05 }
 
 func bits(b []byte) *scalar.Scalar {
@@ -191,7 +193,12 @@ func (c *ctx) scalarEvent(op string, gen func() []byte) {
 		e["as"], e["out"] = ins, vt.B(sbytes(o))
 	case "batchinvert":
 		k := 1 + c.r.Intn(4)
-		var ins, outs [][]int
+		// every size class once, deterministically: scratch space on the stack / heap, block boundaries (15..17, 31..33, 64, 65, 100)
+		if sizes := []int{0, 15, 16, 17, 31, 32, 33, 64, 65, 100}; c05batch < len(sizes) {
+			k = sizes[c05batch]
+		}
+		c05batch++
+		ins, outs := [][]int{}, [][]int{}
 		var vals []*scalar.Scalar
 		for i := 0; i < k; i++ {
 			a := gen()
